@@ -928,9 +928,9 @@ func rwMode(args []string) {
 			full := strings.Join(ref, "")
 			// every write index, transient and permanent, both writer kinds
 			for k := 0; k <= len(ref); k++ {
-				for _, transient := range []bool{false, true} {
-					for _, str := range []bool{false, true} {
-						w := &recWriter{failAt: k, transient: transient}
+				for ti, transient := range []bool{false, true} {
+					for si, str := range []bool{false, true} {
+						w := &recWriter{failAt: k, transient: transient, report: (k + ti + 2*si + j) % 3}
 						var err error
 						if str {
 							err = gp.SanitizeReaderToWriter(strings.NewReader(doc), recStringWriter{w})
@@ -945,7 +945,7 @@ func rwMode(args []string) {
 							// the independent oracle: error reported, no write after the failure, clean prefix
 							if err == nil || w.calls != k+1 || !strings.HasPrefix(full, got) || got != strings.Join(ref[:k], "") {
 								if len(sum.OracleFails) < 10 {
-									sum.OracleFails = append(sum.OracleFails, map[string]any{"kind": "write-failure-mishandled", "fail_at": k, "transient": transient, "string_writer": str, "err": fmt.Sprint(err), "write_calls": w.calls,
+									sum.OracleFails = append(sum.OracleFails, map[string]any{"kind": "write-failure-mishandled", "fail_at": k, "transient": transient, "string_writer": str, "failing_write_reports": []string{"0 bytes", "all bytes", "half"}[w.report], "err": fmt.Sprint(err), "write_calls": w.calls,
 										"written": hexOf(got), "fault_free": hexOf(full), "input_hex": hexOf(doc), "input_text": doc, "policy": ps})
 								}
 							}
